@@ -157,6 +157,17 @@ func srvAnswersCorpus() []*CaseSpec {
 		// a wide cascade: twelve prefixes and their group held, all resolved by one next-hop (the
 		// response then carries more than two dozen results with FIB acknowledgements: the order
 		// of the two acknowledgements of one operation must survive whatever is done to the list)
+		// (widths around the powers of two as well: a response that is cut into pieces must lose none)
+		for _, width := range []int{12, 31, 32, 47, 63, 64} {
+			width := width
+			out = append(out, srvCase(fmt.Sprintf("srv.answers/corpus/wide-cascade-%d/%s", width, B(fib)), cfg, mk(fib, func(b *cutBuilder, c int) {
+				one(b, c, op(b, A, "DEFAULT", nh(1)))
+				for i := 0; i < width; i++ {
+					one(b, c, op(b, A, "DEFAULT", v4(fmt.Sprintf("10.%d.0.0/16", i), 1)))
+				}
+				one(b, c, op(b, A, "DEFAULT", nhg(1, 1)))
+			})))
+		}
 		out = append(out, srvCase(fmt.Sprintf("srv.answers/corpus/wide-cascade/%s", B(fib)), cfg, mk(fib, func(b *cutBuilder, c int) {
 			for i := 0; i < 12; i++ {
 				one(b, c, op(b, A, "DEFAULT", v4(fmt.Sprintf("10.%d.0.0/16", i), 1)))
